@@ -10,6 +10,15 @@ CLAIMED = {
  "C07": ("Contracts on the real arithmetic kernels of engine/number.go (every *I, *F, *FI/*IF/*II, *FtoI function and the comparison helpers), proved for all 64-bit / IEEE-754 inputs by weakest-precondition VCs over go/ssa discharged with z3/cvc5; sat answers are replayed on the real functions.",
          "Trusted: go/ssa, the SMT solvers, extern contracts for math.Floor/Ceil/Trunc/Round/Abs/IsInf/IsNaN (IEEE roundToIntegral/abs), Float values are finite (type invariant, asserted at contracted producers). eval's term traversal and the transcendental functions are not under contract. F3 (addF at exactly +-MaxFloat64) is an open known finding.",
          "contract-based deductive verification: WP over go/ssa + SMT (bit-vectors / integers with explicit wrap / IEEE FP)", "DESIGN.md 5 C07"),
+ "C03": ("Contracts on the choice-point stack and the cut step: promiseStack.pop/popUntil (prefix kept, pops exactly down to the topmost occurrence of the cut parent, nothing older when it is absent), Promise.child (leftmost alternative, consumed once unless repeat), cut(), the cut step and push order of Promise.Force (cut parent stays findable for later cuts of the same body), Call (fresh one-off procedure: cut local to call/N), CallNth. Proved for every stack/heap by VCs with loop invariants over go/ssa.",
+         "Fragment: that the stack is the set of open choice points for every program (the DFS invariant across arbitrary continuations), clause-body compilation of control constructs (iterator.go, clause.go) and bootstrap.pl's once/->/\\+ are not under contract. Assumed (listed in evidence): continuations do not touch the promise they are delayed in nor Force's local stack; no promise is its own cut parent; continuations return non-nil promises. Force's own run-time safety is not claimed (nosafety).",
+         "contract-based deductive verification: WP over go/ssa with heap model, loop invariants, frame conditions; SMT", "DESIGN.md 5 C03"),
+ "C04": ("Contracts on error unwinding: promiseStack.recover (pops innermost first, handler gets exactly the error, stack = kept prefix + handler's promise, or empty and the error returned), the error step of Force, catch/3's handler closure (catcher unified in the call-time environment, Recovery called in its place with the same continuation, declines iff unification fails; the captured call-time variables are never reassigned), throw/1 (instantiation error only for a variable, otherwise a copy of the resolved ball).",
+         "Fragment: F18 (an exited catch/3 still intercepts) and re-activation on backtracking are history properties outside per-function contracts; Env.Unify/Resolve and renamedCopy are trusted here. Assumed: handlers called through function values do not write Force's local stack.",
+         "contract-based deductive verification: WP over go/ssa (closures as functions, at-call wiring obligations, structural census of captured variables); SMT", "DESIGN.md 5 C04"),
+ "C13": ("Force polls the context before every step (ghost flag set by the non-blocking select, cleared by child; obligation at the call of child), and every Force call in both packages receives a context derived from a context parameter of the enclosing function (data-flow check on SSA).",
+         "Fragment: the delay bound, termination of a single step, scheduling and 'interpreter stays usable' are not decided. TermString.Scan is a declared exemption (finite write).",
+         "contract-based deductive verification (ghost state obligation in Force) + structural data-flow obligation over go/ssa", "DESIGN.md 5 C13"),
 }
 
 NA_REASON = {
